@@ -48,8 +48,11 @@ func driveH2C(c *ctx) {
 		c.E("h2c.Uniform", "in", hx(src), "panic", pn, "out", o, "again", again, "zrecv", zrecv)
 	}
 	xmd := func(dst, msg []byte, n int, vector bool) {
+		if !deep {
+			return
+		}
 		out := make([]byte, n)
-		err := h2c.VerifExpandMessageXMD(out, dst, msg)
+		err := deepExpandXMD(out, dst, msg)
 		o := ""
 		if err == nil {
 			o = hx(out)
@@ -69,6 +72,16 @@ func driveH2C(c *ctx) {
 			msg := randBytes(rng, ml)
 			suite("RO", dst, msg, false)
 			suite("NU", dst, msg, false)
+		}
+	}
+	// consecutive calls whose DST || message concatenations coincide (the boundary between the two moved): independent results
+	for _, k := range []int{1, 2, 3, 7} {
+		dst, msg := []byte("QUUX-V01-CS02-with-secp256k1_XMD:SHA-256_SSWU_RO_"), []byte("abcdefghijklmnop")
+		for _, sn := range []string{"RO", "NU"} {
+			suite(sn, dst, msg, false)
+			suite(sn, append(append([]byte{}, dst...), msg[:k]...), msg[k:], false)
+			suite(sn, dst[:len(dst)-k], append(append([]byte{}, dst[len(dst)-k:]...), msg...), false)
+			suite(sn, dst, msg, false)
 		}
 	}
 	suite("RO", nil, []byte("x"), false)
